@@ -38,3 +38,266 @@ func VH_E2E_w2_roundtrip() {
 	vAssert(err == nil, "reads without error")
 	vAssert(bytes.Equal(out, data), "round trip")
 }
+
+var vText = []byte("abcabcabcXabcabc")
+
+// vChunks builds an LZMA2 stream with several chunk kinds: compressed,
+// flushed (second compressed chunk), and - kind 1 - an uncompressed chunk.
+func vLZMA2(kind int) (z, data []byte) {
+	var buf bytes.Buffer
+	w, err := vSmallW2().NewWriter2(&buf)
+	if err != nil {
+		panic(err)
+	}
+	switch kind {
+	case 0:
+		data = vText
+		w.Write(data)
+	case 1: // flush in the middle: two chunks
+		data = vText
+		w.Write(data[:9])
+		w.Flush()
+		w.Write(data[9:])
+	case 2: // incompressible start: raw chunk, then compressed chunk
+		data = []byte{0x13, 0xa7, 0x5c, 0xe1, 0x08, 0xf4, 0x9b, 0x62}
+		w.Write(data)
+		w.Flush()
+		data = append(data, "aaaaaaaaaaaaaaaaaaaaaaaa"...)
+		w.Write(data[8:])
+	case 3: // empty
+	}
+	if err = w.Close(); err != nil {
+		panic(err)
+	}
+	return buf.Bytes(), data
+}
+
+func vKinds2() int {
+	if vThorough() {
+		return 4
+	}
+	return 3
+}
+
+func VH_CUT_r2() {
+	kind := vConcretize(int(vNondetU8("kind")) % vKinds2())
+	z, data := vLZMA2(kind)
+	frag := vConcretize(int(vNondetU8("frag")) % 3)
+	cut := vConcretize(int(vNondetU16("cut")) % len(z))
+	r, err := Reader2Config{DictCap: 4096}.NewReader2(&vSrc{data: z, end: cut, frag: frag})
+	if err != nil {
+		vAssert(err != io.EOF, "constructor error is not io.EOF")
+		return
+	}
+	out, err := vReadAll(r, 5)
+	vAssert(err != nil && err != io.EOF, "truncated LZMA2 stream is not a clean end of stream")
+	vAssert(vIsPrefix(out, data), "delivered bytes are a prefix of the content")
+}
+
+func VH_IO2_r2() {
+	kind := vConcretize(int(vNondetU8("kind")) % vKinds2())
+	z, data := vLZMA2(kind)
+	frag := vConcretize(int(vNondetU8("frag")) % 3)
+	at := vConcretize(int(vNondetU16("at")) % (len(z) + 1))
+	r, err := Reader2Config{DictCap: 4096}.NewReader2(&vSrc{data: z, end: at, frag: frag, failErr: vErrSrc})
+	if err != nil {
+		vAssert(err == vErrSrc, "constructor returns the source's error")
+		return
+	}
+	out, err := vReadAll(r, 7)
+	if at == len(z) {
+		// the end chunk was delivered before the failure: a clean end is legitimate
+		vAssert(err == io.EOF || err == vErrSrc, "complete stream: clean end or the source's error")
+	} else {
+		vAssert(err == vErrSrc, "Read returns the source's error")
+	}
+	vAssert(vIsPrefix(out, data), "delivered bytes are a prefix of the content")
+}
+
+// classic .lzma
+func vLZMA(kind int) (z, data []byte) {
+	data = vText
+	cfg := WriterConfig{DictCap: 4096, BufSize: 4096}
+	switch kind {
+	case 0: // end marker, unknown size
+	case 1: // size in header, no marker
+		cfg.Size = int64(len(data))
+	case 2: // both
+		cfg.Size = int64(len(data))
+		cfg.EOSMarker = true
+	case 3: // binary tree, lc=0 lp=2 pb=0
+		cfg.Matcher = BinaryTree
+		cfg.Properties = &Properties{LC: 0, LP: 2, PB: 0}
+	}
+	var buf bytes.Buffer
+	w, err := cfg.NewWriter(&buf)
+	if err != nil {
+		panic(err)
+	}
+	if _, err = w.Write(data); err != nil {
+		panic(err)
+	}
+	if err = w.Close(); err != nil {
+		panic(err)
+	}
+	return buf.Bytes(), data
+}
+
+func vKindsL() int {
+	if vThorough() {
+		return 4
+	}
+	return 3
+}
+
+func VH_CUT_lzma() {
+	kind := vConcretize(int(vNondetU8("kind")) % vKindsL())
+	z, data := vLZMA(kind)
+	frag := vConcretize(int(vNondetU8("frag")) % 3)
+	cut := vConcretize(int(vNondetU16("cut")) % len(z))
+	r, err := NewReader(&vSrc{data: z, end: cut, frag: frag})
+	if err != nil {
+		vAssert(err != io.EOF, "constructor error is not io.EOF")
+		return
+	}
+	out, err := vReadAll(r, 5)
+	vAssert(err != nil && err != io.EOF, "truncated .lzma stream is not a clean end of stream")
+	vAssert(vIsPrefix(out, data), "delivered bytes are a prefix of the content")
+}
+
+func VH_IO2_lzma() {
+	kind := vConcretize(int(vNondetU8("kind")) % vKindsL())
+	z, data := vLZMA(kind)
+	frag := vConcretize(int(vNondetU8("frag")) % 3)
+	at := vConcretize(int(vNondetU16("at")) % len(z))
+	r, err := NewReader(&vSrc{data: z, end: at, frag: frag, failErr: vErrSrc})
+	if err != nil {
+		vAssert(err == vErrSrc, "constructor returns the source's error")
+		return
+	}
+	out, err := vReadAll(r, 7)
+	vAssert(err != io.EOF, "failing source never gives a clean end")
+	vAssert(err == vErrSrc, "Read returns the source's error")
+	vAssert(vIsPrefix(out, data), "delivered bytes are a prefix of the content")
+}
+
+// IO1 for the LZMA2 writer and the classic writer.
+func vFaultySink() *vSink {
+	sink := &vSink{failFrom: -1}
+	sink.failFrom = vConcretize(int(vNondetU8("failAt"))%10) - 1
+	sink.once = vNondetBool("once")
+	sink.partial = vConcretize(int(vNondetU8("partial")) % 3)
+	return sink
+}
+
+func VH_IO1_w2() {
+	sink := vFaultySink()
+	anyErr := false
+	w, err := vSmallW2().NewWriter2(sink)
+	if err != nil {
+		anyErr = true
+	} else {
+		if _, err = w.Write([]byte("abc")); err != nil {
+			anyErr = true
+		}
+		if err = w.Flush(); err != nil {
+			anyErr = true
+		}
+		if _, err = w.Write([]byte("de")); err != nil {
+			anyErr = true
+		}
+		if err = w.Close(); err != nil {
+			anyErr = true
+		} else {
+			n0 := len(sink.buf)
+			vAssert(w.Close() != nil, "second Close fails")
+			_, err = w.Write([]byte("x"))
+			vAssert(err != nil, "Write after Close fails")
+			vAssert(w.Flush() != nil, "Flush after Close fails")
+			vAssert(len(sink.buf) == n0, "calls after Close emit nothing")
+		}
+	}
+	if sink.failed {
+		vAssert(anyErr, "a failing sink surfaces as an error from some call")
+	} else {
+		vAssert(!anyErr, "no error without a sink failure")
+		r, err := Reader2Config{DictCap: 4096}.NewReader2(&vSrc{data: sink.buf, end: len(sink.buf)})
+		vAssert(err == nil, "output opens")
+		out, err := vReadAll(r, 16)
+		vAssert(err == io.EOF && string(out) == "abcde", "success means a complete valid stream")
+	}
+}
+
+func VH_IO1_lzma() {
+	sink := vFaultySink()
+	withSize := vNondetBool("withSize")
+	cfg := WriterConfig{DictCap: 4096, BufSize: 4096}
+	if withSize {
+		cfg.Size = 5
+	}
+	anyErr := false
+	w, err := cfg.NewWriter(sink)
+	if err != nil {
+		anyErr = true
+	} else {
+		if _, err = w.Write([]byte("abc")); err != nil {
+			anyErr = true
+		}
+		if _, err = w.Write([]byte("de")); err != nil {
+			anyErr = true
+		}
+		if err = w.Close(); err != nil {
+			anyErr = true
+		}
+	}
+	if sink.failed {
+		vAssert(anyErr, "a failing sink surfaces as an error from some call")
+	} else {
+		vAssert(!anyErr, "no error without a sink failure")
+		r, err := NewReader(&vSrc{data: sink.buf, end: len(sink.buf)})
+		vAssert(err == nil, "output opens")
+		out, err := vReadAll(r, 16)
+		vAssert(err == io.EOF && string(out) == "abcde", "success means a complete valid stream")
+	}
+}
+
+// C13 for the LZMA2 and classic readers.
+func VH_FRAG_r2() {
+	kind := vConcretize(int(vNondetU8("kind")) % vKinds2())
+	z, data := vLZMA2(kind)
+	frag := vConcretize(int(vNondetU8("frag")) % 4)
+	r, err := Reader2Config{DictCap: 4096}.NewReader2(&vSrc{data: z, end: len(z), frag: frag})
+	vAssert(err == nil, "valid stream opens under any fragmentation")
+	nsym := 3
+	if vThorough() {
+		nsym = 6
+	}
+	out, err := vReadSched(r, nsym)
+	vAssert(err == io.EOF, "clean end of stream")
+	vAssert(bytes.Equal(out, data), "same bytes for every read schedule and fragmentation")
+	for i := 0; i < 3; i++ {
+		p := make([]byte, 1+i)
+		n, err := r.Read(p)
+		vAssert(n == 0 && err == io.EOF, "EOF is sticky")
+	}
+}
+
+func VH_FRAG_lzma() {
+	kind := vConcretize(int(vNondetU8("kind")) % vKindsL())
+	z, data := vLZMA(kind)
+	frag := vConcretize(int(vNondetU8("frag")) % 4)
+	r, err := NewReader(&vSrc{data: z, end: len(z), frag: frag})
+	vAssert(err == nil, "valid stream opens under any fragmentation")
+	nsym := 3
+	if vThorough() {
+		nsym = 6
+	}
+	out, err := vReadSched(r, nsym)
+	vAssert(err == io.EOF, "clean end of stream")
+	vAssert(bytes.Equal(out, data), "same bytes for every read schedule and fragmentation")
+	for i := 0; i < 3; i++ {
+		p := make([]byte, 1+i)
+		n, err := r.Read(p)
+		vAssert(n == 0 && err == io.EOF, "EOF is sticky")
+	}
+}
